@@ -14,6 +14,8 @@
   * 404 on any request: `(None, None)`, silently; 422 on a JSON-patch: `(patched_body, Patch(fns=fns))`
     — ALL fns remain, also those of an already accepted body JSON-patch; 422 on a merge-patch is
     not caught (the exception propagates);
+  * `process_resource_event` carries the remaining fns into the next cycle's patch EXCEPT the
+    framework's own finalizer edits (`_is_finalizer_fn`), `_daemon/_timer` carry all of them;
   * requests are addressed by namespace/name only: the server serves whatever object is stored under
     the name at that moment (`Server.obj`), whatever its uid.
 
@@ -40,14 +42,23 @@ def blockDeletion (f : String) (l : List String) : List String :=
 def allowDeletion (f : String) (l : List String) : List String :=
   l.filter (fun x => x != f)
 
-/-- The transformation functions of a patch. `block`/`allow` are kopf's own (`processing.py`);
-    `setStatus` stands for a user-supplied function that writes below `/status`
-    (`body.setdefault('status', {})[k] = v`) — the only way to reach the fourth request. -/
+/-- The transformation functions of a patch. `block`/`allow` are the framework's own
+    (`functools.partial(finalizers.block_deletion/allow_deletion, …)`, queued by the decision block of
+    `processing.py`); `userFin add f` is a handler-supplied function with the same effect on the
+    finalizer list (add / remove `f`) but of another identity; `setStatus` stands for a handler-supplied
+    function that writes below `/status` (`body.setdefault('status', {})[k] = v`) — the only way to
+    reach the fourth request. -/
 inductive Fn where
   | block (f : String)
   | allow (f : String)
+  | userFin (add : Bool) (f : String)
   | setStatus (k : String) (v : J)
   deriving Repr, Inhabited
+
+/-- `processing._is_finalizer_fn`: the framework's own finalizer edits. -/
+def Fn.isFramework : Fn → Bool
+  | .block _ | .allow _ => true
+  | _ => false
 
 /-- One stored version of the object under the name. -/
 structure Obj where
@@ -66,6 +77,8 @@ def setStatusKey (k : String) (v : J) (body : Kvs) : Kvs :=
 def Fn.app : Fn → Obj → Obj
   | .block f, o => { o with fins := blockDeletion f o.fins }
   | .allow f, o => { o with fins := allowDeletion f o.fins }
+  | .userFin true f, o => { o with fins := blockDeletion f o.fins }
+  | .userFin false f, o => { o with fins := allowDeletion f o.fins }
   | .setStatus k v, o => { o with body := setStatusKey k v o.body }
 
 /-- `for fn in self.fns: fn(body_to_be)` -/
@@ -346,19 +359,34 @@ def nextPatch (remaining : Option (List Fn)) (fields : Kvs) (fns : List Fn) : Pa
 
 def Patch.isEmpty (p : Patch) : Bool := p.fields.isEmpty && p.fns.isEmpty
 
-/-- `memory.remaining_patch = remaining_patch` after the call (unchanged when the call raises). -/
-def memoryAfter (mem : Option (List Fn)) : Outcome → Option (List Fn)
-  | .ok rem _ => rem
+/-- What `process_resource_event` keeps of a remaining patch: the framework's own finalizer edits
+    are dropped (they are decided anew in every cycle), handler-supplied fns are carried;
+    `Patch(fns=carried_fns) if carried_fns else None`. -/
+def carried : Option (List Fn) → Option (List Fn)
+  | none => none
+  | some l =>
+    if (l.filter (fun f => !f.isFramework)).isEmpty then none
+    else some (l.filter (fun f => !f.isFramework))
+
+/-- `memory.remaining_patch` after the call (unchanged when the call raises). `daemon = true`:
+    `_daemon/_timer`, which carry everything (`patches.Patch(remaining_patch, body=body)`). -/
+def memoryAfter (daemon : Bool) (mem : Option (List Fn)) : Outcome → Option (List Fn)
+  | .ok rem _ => if daemon then rem else carried rem
   | .gone => none
   | .raised => mem
 
-/-- One cycle's patching (`patch_and_check`: nothing is sent for an empty patch) and the
-    `memory.remaining_patch` it leaves. -/
-def cycle (sub : Bool) (mem : Option (List Fn)) (fields : Kvs) (fns : List Fn) (orig : Obj)
+/-- One cycle's patching (`patch_and_check`: nothing is sent for an empty patch) and the remaining
+    patch it leaves for the next one. -/
+def cycleOf (daemon : Bool) (sub : Bool) (mem : Option (List Fn)) (fields : Kvs) (fns : List Fn) (orig : Obj)
     (env : Env) (s : Server) : Result × Option (List Fn) :=
   let p := nextPatch mem fields fns
   if p.isEmpty then (⟨[], s, .ok none none⟩, none)
-  else (patchObj sub p orig env s, memoryAfter mem (patchObj sub p orig env s).outcome)
+  else (patchObj sub p orig env s, memoryAfter daemon mem (patchObj sub p orig env s).outcome)
+
+/-- `process_resource_event` -/
+def cycle := cycleOf false
+/-- `_daemon` / `_timer` -/
+def daemonCycle := cycleOf true
 
 /-- quiet environment: no slips, no faults -/
 def Env.quiet : Env := { slips := fun _ => none, faults := fun _ => .none }
